@@ -37,6 +37,8 @@ def put(s, name, body):
     if a not in s:
         return s
     return s[:s.index(a) + len(a)] + "\n" + body + "\n" + s[s.index(b):]
-s = put(s, "PROPS", t1); s = put(s, "SEEDED", t2)
+t3 = "\n".join("* " + x[len("fixed: "):] for x in kf.get("fixed", []))
+t4 = "\n".join(f"* **{f['property']} `{f['key']}`** — {f['what']}" + (f" (Lean: `{f['lean']}`)" if f.get("lean") else "") for f in kf["findings"])
+s = put(s, "PROPS", t1); s = put(s, "SEEDED", t2); s = put(s, "FIXED", t3); s = put(s, "OPEN", t4)
 open(f"{V}/DESIGN.md", "w").write(s)
 print("tables regenerated")
